@@ -112,6 +112,46 @@ def dec_items(v, bits=None):
     raise Unsupported("decimal rendering of %r" % (v,))
 
 
+class AltSeq:
+    """rope item standing for one of several item sequences, depending on a guard (expanded into a union of strings when
+    the formatted text is assembled)"""
+    __slots__ = ("alts",)
+
+    def __init__(self, alts):
+        self.alts = alts
+
+
+def debug_char_alts(c, quote):
+    """<char as Debug> / str::escape_debug of a symbolic character, exact on ASCII; beyond ASCII the rendering stays opaque"""
+    bv = lambda k: z3.BitVecVal(k, 32)
+    special = z3.Or(c == quote, c == 92)
+    ctrl = z3.And(z3.Or(z3.ULT(c, 32), c == 127), c != 10, c != 13, c != 9, c != 0)
+    plain = z3.And(z3.UGE(c, 32), z3.ULE(c, 126), z3.Not(special))
+    return AltSeq([(special, [92, c]), (c == 10, [92, 110]), (c == 13, [92, 114]), (c == 9, [92, 116]), (c == 0, [92, 48]),
+                   (ctrl, [92, 117, 123, Seg("lower_hex", c, (None, False, False)), 125]), (plain, [c]),
+                   (z3.UGE(c, 128), [Seg("dbgchar", c)])])
+
+
+def expand_alts(items):
+    """[(guard, items)] for a rope that may contain AltSeq items"""
+    alts = [(True, [])]
+    for it in items:
+        if isinstance(it, AltSeq):
+            nxt = []
+            for g, acc in alts:
+                for g2, seq in it.alts:
+                    gg = b_and(g, g2)
+                    if gg is not False:
+                        nxt.append((gg, acc + list(seq)))
+            alts = nxt
+            if len(alts) > 5000:
+                raise Unsupported("too many Debug alternatives")
+        else:
+            for _, acc in alts:
+                acc.append(it)
+    return alts
+
+
 def escape_debug_char(c, quote):
     if c == quote or c == 92:
         return [92, c]
@@ -205,6 +245,8 @@ def register(I, R, hooks):
                     out.extend(escape_debug_char(c, 34))
                 elif isinstance(c, Seg):
                     raise Unsupported("Debug of formatted rope")
+                elif getattr(I, "expand_debug_chars", False):
+                    out.append(debug_char_alts(c, 34))
                 else:
                     out.append(Seg("dbgchar", c))
             out.append(34)
@@ -352,6 +394,11 @@ def register(I, R, hooks):
                             left = 0 if align == 0 else pad if align == 1 else pad // 2
                             items = (fill,) * left + tuple(items) + (fill,) * (pad - left)
                 out.extend(items)
+        if any(isinstance(x, AltSeq) for x in out):
+            alts = [(g, StringV(o)) for g, o in expand_alts(out) if I.feasible(st.pc, g)]
+            if not alts:
+                raise Unsupported("no feasible Debug alternative")
+            return merge_many(alts)
         return StringV(out)
     I.render_args = render
 
